@@ -356,12 +356,13 @@ Fixpoint find_competency (rows : list (list bool * Q)) (pres : list bool) (k : n
   match rows with
   | [] => Ok best
   | (req, comp) :: r =>
+    if negb (Nat.eqb (length pres) (length req)) then Err InvalidArgument
+    else
     match nth_error req k with
-    | None => Err UB_OutOfBounds            (* row indexed before its size is checked *)
+    | None => Err UB_OutOfBounds            (* host index beyond the environment's hosts *)
     | Some false => find_competency r pres k best
     | Some true =>
-      if negb (Nat.eqb (length pres) (length req)) then Err InvalidArgument
-      else if Qle_bool comp best then find_competency r pres k best
+      if Qle_bool comp best then find_competency r pres k best
       else if row_subset req pres then find_competency r pres k comp
       else find_competency r pres k best
     end
